@@ -625,4 +625,7 @@ def run(ctx):
     ctx.do(r17_13)
     from . import c08 as _c08
     ctx.do(_c08.r8_3)  # the inbox and what lies below it are recognised in every spelling
+    from . import c12 as _c12
+    ctx.do(_c12.r12_8)  # the table LIST reads from: rows change through exact keys (and the two confirmed pattern sites)
+    ctx.do(_c12.r12_2)  # the subscription flag LSUB and DELETE consult is read back after a restart
     ctx.note("R17.3 validate-before-mutate for create/delete/rename is decided by C05 R5.5")
